@@ -481,6 +481,10 @@ func (runInfo *runInfoStruct) invokeItemExpr(expr *ast.ItemExpr) {
 		return
 	}
 	item := runInfo.rv
+	if item.Kind() != reflect.Array {
+		// the container is the one read before the index operand runs (an array stays the place it is)
+		item = detachValue(item)
+	}
 
 	runInfo.expr = expr.Index
 	runInfo.invokeExpr()
